@@ -102,6 +102,12 @@ package eval
 //@   ensures (verr.Errors.arr == old(verr.Errors.arr) || fresh(verr.Errors)) && (verr.Expressions.arr == old(verr.Expressions.arr) || fresh(verr.Expressions))
 //@   modifies verr.Errors, verr.Expressions, elems(verr.Errors), elems(verr.Expressions)
 
+// Merge: appending another accumulator never loses an error already recorded.
+//@ func (*ValidationErrors).Merge
+//@   params verr err
+//@   ensures never.shrinks: len(verr.Errors) >= old(len(verr.Errors))
+//@   modifies verr.Errors, verr.Expressions, elems(verr.Errors), elems(verr.Expressions)
+
 // validateSet: every validation failure of the set is recorded ("all errors of a phase are returned
 // together": a failure leaves Context.Errors non-nil, which is what RunDSL tests before finalizing).
 //@ func validateSet
